@@ -15,7 +15,7 @@
    "Always wakes / completes" is proved in its safety form: an enabled step of the blocked thread, or of a thread that
    still owes it the signal, exists (DESIGN.md section 3). *)
 From Coq Require Import List Arith Bool NArith.
-From Muscle Require Import Conc.ThreadQ Conc.ThreadQWf Conc.ThreadQWake Conc.ThreadQProofs Conc.ThreadQConsts.
+From Muscle Require Import Conc.ThreadQ Conc.ThreadQWf Conc.ThreadQWake Conc.ThreadQProofs Conc.ThreadQProgress Conc.ThreadQConsts.
 Import ListNotations.
 
 (* exactly once, in order: at every moment what was sent = what was received followed by what is still queued *)
@@ -163,3 +163,36 @@ Example c11_ex_stuck : exists s, reachable_if false ABS react0 any_label true fa
   (forall w c, sys_step false ABS react0 s (LStep w c) = None).
 Proof. exact (ex_stuck ABS). Qed.
 
+
+(* ---- "can always complete" (Conc/ThreadQProgress.v): no reachable state is a trap.  [canreach P s]: some finite
+   continuation from s, made of steps of the internal thread and of threads that still owe it a signal only
+   ([helper]), ends in a state satisfying P; proved with a measure that each such step decreases. ---- *)
+
+(* from every reachable state with a live internal thread: it can finish, or receive everything queued and block *)
+Theorem c11_can_drain : forall react m e s,
+  reachable_if false ABS react any_label m e s -> g_ist (s_g s) = ILive ->
+  canreach ABS react (fun s' => reachable_if false ABS react any_label m e s' /\ drained s') s.
+Proof. exact (can_drain ABS). Qed.
+Print Assumptions c11_can_drain.
+
+(* shutdown can always run to completion: once a NULL Message is queued for (or taken by) a live thread, it can finish *)
+Theorem c11_shutdown_can_complete : forall react m e s,
+  reachable_if false ABS react any_label m e s -> g_ist (s_g s) = ILive -> null_seen s ->
+  canreach ABS react (fun s' => reachable_if false ABS react any_label m e s' /\ g_ist (s_g s') = IExited) s.
+Proof. exact (shutdown_can_complete ABS). Qed.
+Print Assumptions c11_shutdown_can_complete.
+
+(* every queued Message can be received: in order, all of them unless the thread finishes first *)
+Theorem c11_queued_can_be_received : forall react m e s,
+  reachable_if false ABS react any_label m e s -> g_ist (s_g s) = ILive ->
+  canreach ABS react (fun s' => reachable_if false ABS react any_label m e s' /\ exists got,
+              c_rcvd (g_ci (s_g s')) = c_rcvd (g_ci (s_g s)) ++ got /\
+              got ++ c_q (g_ci (s_g s')) = c_q (g_ci (s_g s)) /\
+              (g_ist (s_g s') = IExited \/ c_q (g_ci (s_g s')) = [])) s.
+Proof. exact (queued_can_be_received ABS). Qed.
+Print Assumptions c11_queued_can_be_received.
+
+(* the premises of c11_shutdown_can_complete are met by c11_ex_shutdown_waiting's state (a NULL Message is queued) *)
+Example c11_ex_null_seen : exists s, reachable_if false ABS react0 any_label true false s /\
+  g_ist (s_g s) = ILive /\ null_seen s.
+Proof. exact (ex_null_seen ABS). Qed.
